@@ -17,6 +17,8 @@ package dkg
 //   dup  – one message handed to the recipient a second time, the copy at any later position of its list;
 //   swap – two entries of one recipient's list exchanged (this includes a round 2 broadcast that arrives
 //          before the recipient has finished round 1: the controller waits until the sender has produced it);
+//   late – one node calls runFrostParallel only after the first k messages for it have been handed to its
+//          (already registered) callbacks: messages that arrive before the recipient has entered the round;
 //   conc – the message is delivered by two threads at once; the interleavings of the two calls are enumerated
 //          by schedx (dkg/frostp2p.go is built with the vsync lock shim: every lock acquisition and every
 //          unlock of the callbacks is a scheduling point).
@@ -73,9 +75,9 @@ var c11KindName = [3]string{"r1cast", "r1p2p", "r2cast"}
 // c11Dev is one deviation from the default delivery. Indices refer to the recipient's arrival list as it is
 // after the deviations before it.
 type c11Dev struct {
-	Op string `json:"op"` // "dup" | "swap" | "conc"
+	Op string `json:"op"` // "dup" | "swap" | "late" | "conc"
 	To int    `json:"to"` // recipient node (0-based)
-	I  int    `json:"i"`  // index of the message in the recipient's list
+	I  int    `json:"i"`  // index of the message in the recipient's list; late: number of entries delivered before the node starts
 	P  int    `json:"p"`  // dup: index at which the second copy is inserted (I < P <= len); swap: the other index (I < P)
 }
 
@@ -146,6 +148,12 @@ func c11Lists(c c11Case) (lists [][]c11Item, conc *c11Dev, err error) {
 		if d.To < 0 || d.To >= c.N {
 			return nil, nil, fmt.Errorf("bad deviation %+v", d)
 		}
+		if d.Op == "late" {
+			if d.I < 1 || d.I > len(lists[d.To]) {
+				return nil, nil, fmt.Errorf("bad deviation %+v", d)
+			}
+			continue
+		}
 		if d.Op == "conc" {
 			if k != len(c.Devs)-1 || d.I < 0 || d.I >= len(lists[d.To]) {
 				return nil, nil, fmt.Errorf("bad deviation %+v", d)
@@ -159,6 +167,57 @@ func c11Lists(c c11Case) (lists [][]c11Item, conc *c11Dev, err error) {
 		}
 	}
 	return lists, conc, nil
+}
+
+// c11Realisable says whether the schedule can happen at all when every node follows the protocol (a node
+// produces its round 2 broadcast only after it has received the round 1 broadcast and the round 1 shares of every
+// other node): two recipients that each wait for the other's round 2 broadcast before the end of their own
+// round 1 cannot both be served. Abstract replay of the controller's loop, no real code involved.
+func c11Realisable(c c11Case) bool {
+	lists, _, err := c11Lists(c)
+	if err != nil {
+		return false
+	}
+	n := c.N
+	late := map[int]int{}
+	for _, d := range c.Devs {
+		if d.Op == "late" {
+			late[d.To] = d.I
+		}
+	}
+	cur := make([]int, n)
+	got := make([]map[[2]int]bool, n) // distinct round 1 messages received
+	for i := range got {
+		got[i] = map[[2]int]bool{}
+	}
+	started := func(i int) bool { return cur[i] >= late[i] }
+	r1done := func(i int) bool { return started(i) && len(got[i]) == 2*(n-1) }
+	for {
+		moved := false
+		for r := 0; r < n; r++ {
+			if cur[r] >= len(lists[r]) {
+				continue
+			}
+			it := lists[r][cur[r]]
+			if (it.Kind == c11R2Cast && !r1done(it.From)) || (it.Kind != c11R2Cast && !started(it.From)) {
+				continue
+			}
+			cur[r]++
+			if it.Kind != c11R2Cast {
+				got[r][[2]int{it.Kind, it.From}] = true
+			}
+			moved = true
+		}
+		if !moved {
+			break
+		}
+	}
+	for r := 0; r < n; r++ {
+		if cur[r] < len(lists[r]) {
+			return false
+		}
+	}
+	return true
 }
 
 func c11ListKey(l []c11Item) string {
@@ -186,6 +245,11 @@ func (c c11Case) tpString() string {
 	sort.Ints(rs)
 	for _, r := range rs {
 		s += fmt.Sprintf(" arrival order at node %d: %v", r, lists[r])
+	}
+	for _, d := range c.Devs {
+		if d.Op == "late" {
+			s += fmt.Sprintf("; node %d starts the ceremony only after the first %d of them have been handed to its callbacks", d.To, d.I)
+		}
 	}
 	if conc != nil {
 		s += fmt.Sprintf("; %v is delivered to node %d by two threads at once, interleaving %v", lists[conc.To][conc.I], conc.To, c.Choices)
@@ -439,6 +503,10 @@ type c11World struct {
 
 	drops0      int64 // conc: dedup decisions logged before this execution
 	concStarted bool
+
+	late     map[int]int // node -> number of deliveries before it starts
+	started  []bool
+	buffered int // deliveries to a node that had not yet called runFrostParallel
 }
 
 func c11NewWorld(c c11Case, lists [][]c11Item) (*c11World, error) {
@@ -454,7 +522,12 @@ func c11NewWorld(c c11Case, lists [][]c11Item) (*c11World, error) {
 	}
 	ctx, cancel := context.WithCancel(log.WithLogger(context.Background(), zap.NewNop()))
 	w := &c11World{c: c, net: net, lists: lists, cur: make([]int, n), ctx: ctx, cancel: cancel,
-		done: make([]bool, n), errs: make([]error, n), shares: make([][]share.Share, n)}
+		done: make([]bool, n), errs: make([]error, n), shares: make([][]share.Share, n), late: map[int]int{}, started: make([]bool, n)}
+	for _, d := range c.Devs {
+		if d.Op == "late" {
+			w.late[d.To] = d.I
+		}
+	}
 	for i := 0; i < n; i++ {
 		// what dkg.Run does: dkg.go "caster := bcast.New(...)" / "tp, err := newFrostP2P(...)"
 		caster := bcast.New(net.hosts[i], ids, keys[i], []byte("c11-definition-hash"))
@@ -468,10 +541,21 @@ func c11NewWorld(c c11Case, lists [][]c11Item) (*c11World, error) {
 	return w, nil
 }
 
-// start launches the n nodes and waits until all of them are blocked (round 1 sent, waiting for messages).
+// start launches the nodes (except late starters) and waits until all of them are blocked (round 1 sent,
+// waiting for messages).
 func (w *c11World) start() {
+	for i := 0; i < w.c.N; i++ {
+		if _, late := w.late[i]; !late {
+			w.launch(i)
+		}
+	}
+	synctest.Wait()
+}
+
+func (w *c11World) launch(i int) {
 	c := w.c
-	for i := 0; i < c.N; i++ {
+	w.started[i] = true
+	{
 		go func(i int) {
 			var s []share.Share
 			var err error
@@ -486,7 +570,6 @@ func (w *c11World) start() {
 			s, err = runFrostParallel(w.ctx, w.tps[i], uint32(c.V), uint32(c.N), uint32(c.T), uint32(i+1), "0xc11")
 		}(i)
 	}
-	synctest.Wait()
 }
 
 func (w *c11World) status() (allDone, failed bool) {
@@ -517,6 +600,9 @@ func (w *c11World) note(it c11Item, to int) {
 	if it.Copy {
 		w.copies++
 	}
+	if !w.started[to] {
+		w.buffered++
+	}
 	if it.Kind == c11R2Cast && w.net.get(c11R2Cast, to, (to+1)%w.c.N) == nil {
 		w.earlyR2++ // the recipient has not broadcast its own round 2 message: it is still in round 1
 	}
@@ -529,6 +615,11 @@ func (w *c11World) progress(holdTo, holdIdx int) {
 	for {
 		moved := false
 		for r := 0; r < w.c.N; r++ {
+			if k, late := w.late[r]; late && !w.started[r] && w.cur[r] >= k {
+				w.launch(r)
+				synctest.Wait()
+				moved = true
+			}
 			if w.cur[r] >= len(w.lists[r]) || (r == holdTo && w.cur[r] == holdIdx) {
 				continue
 			}
@@ -595,7 +686,7 @@ func (w *c11World) finish() c11Outcome {
 	out.stalled = !allDone && !failed
 	w.shutdown()
 	out.delivered = int(w.delivered.Load())
-	out.copies, out.earlyR2 = w.copies, w.earlyR2
+	out.copies, out.earlyR2, out.buffered = w.copies, w.earlyR2, w.buffered
 	w.net.mu.Lock()
 	out.netOdd = w.net.unclassified + w.net.resent
 	w.net.mu.Unlock()
@@ -803,6 +894,7 @@ func (s *c11State) classifyTP(c c11Case, out c11Outcome) bool {
 	r.Count("tp_repeated_deliveries", out.copies)
 	r.Count("tp_duplicates_dropped_by_real_dedup", out.dupDrops)
 	r.Count("tp_round2_cast_arrived_during_round1", out.earlyR2)
+	r.Count("tp_messages_arrived_before_recipient_started", out.buffered)
 	if out.netOdd > 0 {
 		r.Count("tp_unexpected_sends", out.netOdd)
 	}
@@ -811,6 +903,9 @@ func (s *c11State) classifyTP(c c11Case, out c11Outcome) bool {
 	case err != nil:
 		bad = "failed-loudly: " + c11ErrClass(err)
 		r.Count("tp_ceremonies_failed_loudly", 1)
+	case out.stalled && !c11Realisable(c):
+		bad = "schedule-not-realisable" // e.g. two recipients that each wait for the other's round 2 broadcast
+		r.Count("tp_schedules_not_realisable", 1)
 	case out.stalled:
 		bad = "did-not-complete"
 		r.Count("tp_ceremonies_did_not_complete", 1)
@@ -834,6 +929,9 @@ func (s *c11State) classifyTP(c c11Case, out c11Outcome) bool {
 	if out.earlyR2 > 0 {
 		r.Count("tp_ceremonies_ok_with_early_round2_cast", 1)
 	}
+	if out.buffered > 0 {
+		r.Count("tp_ceremonies_ok_with_late_starter", 1)
+	}
 	return true
 }
 
@@ -850,7 +948,10 @@ func (s *c11State) explorer() *schedx.Explorer {
 		e := schedx.NewExplorer(s.r.TB, "C11")
 		e.Shard, e.NSh = 0, 1
 		e.Deadline = s.r.Deadline
-		e.Bounds = []int{-1}
+		e.Bounds = []int{1} // quick: at most one preemption; thorough: every interleaving
+		if s.thorough {
+			e.Bounds = []int{-1}
+		}
 		if dir, err := os.MkdirTemp("", "c11-schedx-"); err == nil {
 			e.ReplayDir, s.exDir = dir, dir
 		}
@@ -946,7 +1047,7 @@ func c11SingleDevs(to int, l []c11Item, ops string) []c11Dev {
 
 type c11TPUnit struct {
 	N, T, V, Base int
-	Fam           string // default | dup | swap | conc | pair-same | pair-cross
+	Fam           string // default | dup | swap | late | conc | pair-same | pair-cross
 	To, To2       int
 }
 
@@ -966,6 +1067,10 @@ func c11TPCases(u c11TPUnit) []c11Case {
 	case "dup", "swap":
 		for _, d := range c11SingleDevs(u.To, c11BaseList(u.N, u.To, u.Base), u.Fam) {
 			cases = append(cases, mk(u.Fam, u.Base, d))
+		}
+	case "late":
+		for k := 1; k <= 2*(u.N-1); k++ { // every round 1 message can be there before the node starts
+			cases = append(cases, mk("late", u.Base, c11Dev{Op: "late", To: u.To, I: k}))
 		}
 	case "conc":
 		for i := range c11BaseList(u.N, u.To, u.Base) {
@@ -1012,7 +1117,7 @@ func c11TPUnits(thorough bool) []c11TPUnit {
 		us = append(us, c11TPUnit{N: n, T: t, V: v, Fam: "default"})
 		for base := 0; base < 2; base++ {
 			for to := 0; to < n; to++ {
-				for _, f := range []string{"dup", "swap", "conc", "pair-same"} {
+				for _, f := range []string{"dup", "swap", "late", "conc", "pair-same"} {
 					if strings.Contains(fams, f) {
 						us = append(us, c11TPUnit{N: n, T: t, V: v, Base: base, Fam: f, To: to})
 					}
@@ -1026,12 +1131,26 @@ func c11TPUnits(thorough bool) []c11TPUnit {
 	for n := 3; n <= 4; n++ {
 		for t := 2; t <= n; t++ {
 			for v := 1; v <= 2; v++ {
-				fams := "dup swap conc"
-				if thorough && n == 3 {
-					fams += " pair-same pair-cross"
-				}
-				if thorough && n == 4 && v == 1 {
-					fams += " pair-same"
+				var fams string
+				switch {
+				case !thorough && n == 3 && v == 1:
+					fams = "dup swap late conc"
+				case !thorough && n == 3:
+					fams = "dup swap late"
+				case !thorough && v == 1 && t == 3:
+					fams = "dup swap late conc"
+				case !thorough && v == 1:
+					fams = "dup swap late"
+				case !thorough:
+					fams = "" // n=4, v=2: default delivery only in the quick tier
+				case n == 3 && v == 1:
+					fams = "dup swap late conc pair-same pair-cross"
+				case n == 3:
+					fams = "dup swap late conc"
+				case v == 1:
+					fams = "dup swap late conc"
+				default:
+					fams = "dup swap late"
 				}
 				add(n, t, v, fams)
 			}
@@ -1039,10 +1158,10 @@ func c11TPUnits(thorough bool) []c11TPUnit {
 	}
 	if thorough {
 		for t := 2; t <= 3; t++ {
-			add(3, t, 3, "dup swap conc")
+			add(3, t, 3, "dup swap late")
 		}
 		for t := 2; t <= 5; t++ {
-			add(5, t, 1, "dup swap")
+			add(5, t, 1, "dup swap late")
 		}
 	}
 	return us
@@ -1052,7 +1171,7 @@ func (u c11TPUnit) cost() int {
 	per := u.V * u.N * u.N * (2*u.T + 4)
 	k := len(c11TPCases(u))
 	if u.Fam == "conc" {
-		k *= 20
+		k *= 8
 	}
 	return k * per
 }
@@ -1114,4 +1233,50 @@ func c11PartTwo(st *c11State) {
 	if st.exDir != "" {
 		os.RemoveAll(st.exDir)
 	}
+}
+
+// TestVerifRaceC11 is the race pass (thorough tier, -race build WITHOUT the vsync shim): the bodies of the
+// "conc" cases free-running - the same bytes handed to the recipient's real handler by two plain goroutines -
+// for every message of an n=3 ceremony and both default orders. It decides nothing about the property; it
+// discharges the assumption of the interleaving exploration that the callbacks have no unsynchronised access
+// between lock operations.
+func TestVerifRaceC11(t *testing.T) {
+	c11T = t
+	log.InitConsoleForT(t, &c11LogSink)
+	ok, bad := 0, 0
+	for base := 0; base < 2; base++ {
+		for to := 0; to < 3; to++ {
+			for i := range c11BaseList(3, to, base) {
+				c := c11Case{N: 3, T: 2, V: 1, TP: true, Base: base, MapRot: -1, Family: "tp-race"}
+				lists, _, err := c11Lists(c)
+				if err != nil {
+					t.Fatal(err)
+				}
+				synctest.Test(t, func(*testing.T) {
+					w, err := c11NewWorld(c, lists)
+					if err != nil {
+						t.Log(err)
+						return
+					}
+					w.start()
+					w.progress(to, i)
+					it := lists[to][i]
+					if pkt := w.net.get(it.Kind, it.From, to); pkt != nil {
+						go w.deliver(pkt)
+						go w.deliver(pkt)
+						synctest.Wait()
+						w.cur[to] = i + 1
+						w.progress(-1, 0)
+					}
+					out := w.finish()
+					if out.firstErr() == nil && !out.stalled {
+						ok++
+					} else {
+						bad++
+					}
+				})
+			}
+		}
+	}
+	t.Logf("race pass: %d ceremonies with a concurrently repeated delivery completed, %d did not", ok, bad)
 }
